@@ -22,7 +22,9 @@
     counts >= n included).  WHOLE LISTS, flags included (sal shr sar rol ror rcl rcr): every regenerated list is, node for node, the
     mirror SemShiftFlags.mirror_shf of the dumped operands; for ALL operands and states the carry flag written by shl / shr / sar is
     the processor's: count 0 keeps cf, otherwise cf receives the last bit shifted out (bit n - c of the operand for shl with c <= n,
-    bit c - 1 for shr and of the sign-extended operand for sar).  The other flag assignments of this group are mirrored as written
+    bit c - 1 for shr and of the sign-extended operand for sar); the carry flag written by rol / ror is the low / top bit of the
+    rotated value (the processor's rule for a non-zero count); rcl / rcr write the value and the carry of the (n+1)-bit ring
+    operand:cf rotated by count & 31 modulo n + 1 (Expr.rc_op's reading of the lifter's through-carry operators), bit by bit.  The other flag assignments of this group are mirrored as written
     but have no meaning theorem: several are known findings (zf / sf / pf / of rewritten when the count is 0, the OF "hacks" of the
     rotates, cf of rotates with count 0).
     Near control transfers with 32-bit operand size (call ret leave jmp): each regenerated list is the mirror SemCtl.mirror_ctl of the
@@ -65,7 +67,7 @@
     shifts and rotates, rcl/rcr, far and 16-bit control transfers ...) is decided by evaluating the regenerated IR with the
     extracted Expr.eval against the SDM reference (harness/p_c04.py), not by a theorem. *)
 From Coq Require Import ZArith List Bool String.
-From Mx Require Import Expr Wf Sem SemProofs SemFacts SemCC SemCCProofs SemCCFacts SemMov SemMovProofs SemMovFacts SemShift SemShiftProofs SemShiftFacts SemCtl SemCtlProofs SemCtlFacts SemStr SemStrProofs SemStrFacts SemFlagMove SemFlagMoveFacts SemMisc SemMiscProofs SemMiscFacts SemDShift SemDShiftProofs SemDShiftFacts SemMulDiv SemMulDivProofs SemMulDivFacts SemSys SemSysProofs SemSysFacts SemShiftFlags SemShiftFlagsProofs SemShiftFlagsFacts.
+From Mx Require Import Expr Wf Sem SemProofs SemFacts SemCC SemCCProofs SemCCFacts SemMov SemMovProofs SemMovFacts SemShift SemShiftProofs SemShiftFacts SemCtl SemCtlProofs SemCtlFacts SemStr SemStrProofs SemStrFacts SemFlagMove SemFlagMoveFacts SemMisc SemMiscProofs SemMiscFacts SemDShift SemDShiftProofs SemDShiftFacts SemMulDiv SemMulDivProofs SemMulDivFacts SemSys SemSysProofs SemSysFacts SemShiftFlags SemShiftFlagsProofs SemShiftFlagsFacts SemRcProofs.
 From MxGen Require Import LiftAll.
 Import ListNotations.
 Open Scope Z_scope.
@@ -487,6 +489,29 @@ Proof.
   split; [exact (shl_cf_value rho mu iota a b Oa Ob Sa Sb)|]. split; [exact (shr_cf_value rho mu iota a b Oa Ob Sa Sb) | exact (sar_cf_value rho mu iota a b Oa Ob Sa Sb)].
 Qed.
 Print Assumptions C04_shift_carry.
+
+Theorem C04_rotate_carry : forall rho mu iota a b, operand_ok a = true -> operand_ok b = true -> (size a = 8 \/ size a = 16 \/ size a = 32) ->
+  eval rho mu iota (EOp "&" [shift_val Rol a b; int_from a 1]) = Z.b2z (Z.testbit (eval rho mu iota (shift_val Rol a b)) 0) /\
+  eval rho mu iota (msb (shift_val Ror a b)) = Z.b2z (Z.testbit (eval rho mu iota (shift_val Ror a b)) (size a - 1)).
+Proof. intros rho mu iota a b Oa Ob Sa. split; [exact (rol_cf_value rho mu iota a b Oa Ob Sa) | exact (ror_cf_value rho mu iota a b Oa Ob Sa)]. Qed.
+Print Assumptions C04_rotate_carry.
+
+(** rcl / rcr: value and new carry are the (n+1)-bit ring operand:cf rotated by count & 31 *)
+Theorem C04_rcl_rcr : forall rho mu iota a b, operand_ok a = true -> let n := size a in let ev := eval rho mu iota in
+  let ring_ := the_ring rho mu iota a in let c := rc_count rho mu iota b in
+  (Z.testbit ring_ 0 = Z.odd (rho "cf") /\ forall i, 0 <= i < n -> Z.testbit ring_ (i + 1) = Z.testbit (ev a) i) /\
+  (let R := rol (n + 1) ring_ c in
+     ev (EOp "<<<c_cf" [a; b; cf]) = Z.b2z (Z.testbit R 0) /\
+     (forall i, 0 <= i < n -> Z.testbit (ev (EOp "<<<c_rez" [a; b; cf])) i = Z.testbit R (i + 1)) /\
+     (forall j, 0 <= j < n + 1 -> Z.testbit R j = Z.testbit ring_ ((j - c) mod (n + 1)))) /\
+  (let R := ror (n + 1) ring_ c in
+     ev (EOp ">>>c_cf" [a; b; cf]) = Z.b2z (Z.testbit R 0) /\
+     (forall i, 0 <= i < n -> Z.testbit (ev (EOp ">>>c_rez" [a; b; cf])) i = Z.testbit R (i + 1)) /\
+     (forall j, 0 <= j < n + 1 -> Z.testbit R j = Z.testbit ring_ ((j + c) mod (n + 1)))).
+Proof.
+  intros rho mu iota a b Oa n ev ring_ c. split; [exact (ring_layout rho mu iota a)|]. split; [exact (rcl_bits rho mu iota a b Oa) | exact (rcr_bits rho mu iota a b Oa)].
+Qed.
+Print Assumptions C04_rcl_rcr.
 
 (** the mirror lays the assignments out as the lifter does *)
 Example C04_mirror_layout : forall a b, let c := alu_val Add a b in
